@@ -116,6 +116,39 @@ func runC16(c *sim.Ctx) {
 		held = append(held, k)
 	}
 	thrift.SetSpanCache(false)
+	// epilogue: the switch is flipped once more and a few *other* small and medium values are
+	// decoded by both readers (a repeated history would overwrite recycled memory with the
+	// very same bytes and hide it)
+	thrift.SetSpanCache(true)
+	{
+		e := &ref.Encoder{}
+		var vals [][]byte
+		for i := 0; i < 24; i++ {
+			v := sim.KeyedBytes(key^0xE9110+uint64(i), 3, []int{1, 7, 40, 100, 127, 128, 300}[st.Choose(7)])
+			vals = append(vals, v)
+			e.LenBytes(v)
+		}
+		in := append([]byte(nil), e.Buf...)
+		off := 0
+		for range vals {
+			_, l, _ := thrift.Binary.ReadString(in[off:])
+			off += l
+		}
+		src := sim.NewSource(c, "epilogue", e.Buf, sim.SourceCfg{StallAt: -1, ErrAt: len(e.Buf)})
+		dr := bufiox.NewDefaultReader(src)
+		br := thrift.NewBufferReader(dr)
+		for range vals {
+			src.BeginCall(8)
+			if st.Chance(1, 2) {
+				_, _ = br.ReadString()
+			} else {
+				_, _ = br.ReadBinary()
+			}
+		}
+		br.Recycle()
+		dr.Release(nil)
+	}
+	thrift.SetSpanCache(false)
 	for pass, ks := range held {
 		for i := range ks {
 			k := &ks[i]
